@@ -46,17 +46,19 @@ def setup(common=None):
 
         _U["mr_atoms"] = {a["n"]: a for a in mr["atoms"]}
         _U["dimexpr"] = dimexpr
-        for rid in (1, 2, 3, 4):  # 4 = the registry the histories of law "state" edit
+        t5 = {a["n"]: Fraction(x[0], x[1]) for a, x in zip(mr["atoms"], mr["table5"])}
+        for rid in (1, 2, 3, 4, 5):  # 4 = the registry the histories of law "state" edit; 5 defines some symbols differently
             reg = UnitRegistry()
             for a in mr["atoms"]:
                 if a["n"] == "xb" and rid != 2:
                     continue
-                lg = Fraction(a["lg"][0], a["lg"][1])
+                lg = t5[a["n"]] if rid == 5 else Fraction(a["lg"][0], a["lg"][1])
                 assert lg.denominator == 1
                 reg.add(a["n"], (-1.0 if a["neg"] else 1.0) * 2.0 ** int(lg), dimexpr(a["dim"]), offset=float(Fraction(a["off"][0], a["off"][1])), prefixable=False)
             reg.unit_system_id
             regs[rid] = reg
         _U["leaves"] = [(l["reg"], l["s"]) for l in mr["leaves"]]
+        _U["xscale"] = [2.0 ** int(Fraction(l["xlg"][0], l["xlg"][1])) if l["xs"] else None for l in mr["leaves"]]
     else:
         from unyt.unit_registry import default_unit_registry
 
@@ -69,7 +71,17 @@ def setup(common=None):
         reg.add("h", 0.6766, D.dimensionless)
         reg.unit_system_id
         regs[3] = reg
+        # a second data set with its own code units: the same names, other definitions
+        reg6 = UnitRegistry()
+        reg6.add("code_length", 3.0856775809623245e21 * 0.4, D.length)
+        reg6.add("code_mass", 1.98841586e43 * 5.0, D.mass)
+        reg6.add("code_time", 3.15576e16, D.time)
+        reg6.add("code_temp", 1.0, D.temperature)
+        reg6.add("h", 0.7, D.dimensionless)
+        reg6.unit_system_id
+        regs[6] = reg6
         _U["leaves"] = [(l["reg"], l["s"]) for l in common["tab"]]
+        _U["xscale"] = [l.get("xv") for l in common["tab"]]
     _U["regs"] = regs
     # state classes of the registries: equal tables -> equal class (named by the smallest registry id of the class)
     rs = {}
@@ -284,18 +296,19 @@ def observe(case):
         return _run(case, 0, None)
     _reset_registry4()
     hashes = {}
+    olds = []  # the leaf objects of phase 0: units created before the edits, used as operands later ("old")
     phases = []
     for ph in range(len(case["edits"]) + 1):
         if ph > 0:
             _apply_edit(_U["regs"][4], case["edits"][ph - 1])
-        o = _run(case, 4, hashes)
+        o = _run(case, 4, hashes, olds)
         o.update(hist=True, ph=ph, edits=case["edits"])
         phases.append(o)
     _reset_registry4()
     return {"phases": phases}
 
 
-def _run(case, hreg, hashes):
+def _run(case, hreg, hashes, olds=None):
     U = _U
     mp = U["mp"]
     exact = U["mode"] == "MR"
@@ -304,6 +317,19 @@ def _run(case, hreg, hashes):
     if hreg:
         lv = [(hreg, s) for _, s in lv]
     objs = [Unit(s, registry=U["regs"][r]) for r, s in lv]
+    xs = []
+    for k, i in enumerate(case["lv"]):
+        xv = U["xscale"][i - 1]
+        xs.append(xv is not None)
+        if xv is not None:
+            # a unit GIVEN with a scale: the expression object (not the string: the string memo would hand back, and
+            # then keep, another unit), the dimension the expression has, an explicit base_value
+            b = objs[k]
+            scale = xv if U["mode"] == "MR" else float(b.base_value) * xv
+            objs[k] = Unit(b.expr, base_value=scale, dimensions=b.dimensions, registry=b.registry)
+    xs.append(False)
+    if olds is not None and not olds:
+        olds.extend(objs[:3])
     objs.append(Unit(registry=objs[0].registry))
     atoms = _atoms_of(objs)
     lut = objs[0].registry.lut
@@ -327,8 +353,9 @@ def _run(case, hreg, hashes):
         aoff.append(bool(float(row[2]) != 0.0))
     ain = [[k for k, r in sorted(U["regs"].items()) if a in r] for a in atoms]
     regs = []
-    for o, name in zip(objs, lv + [(lv[0][0], "<one>")]):
-        key = (name, tuple(atoms), lv[0][0])
+    xvals = [U["xscale"][i - 1] for i in case["lv"]] + [None]
+    for o, name, xv in zip(objs, lv + [(lv[0][0], "<one>")], xvals):
+        key = (name, tuple(atoms), lv[0][0], xv)
         if hreg:  # the registry changes under the histories: nothing is remembered
             regs.append(_proj(o, atoms, lut, exact))
             continue
@@ -348,6 +375,8 @@ def _run(case, hreg, hashes):
         try:
             signal.signal(signal.SIGALRM, _alarm)
             signal.alarm(STEP_TIMEOUT if _TIMEOUTS[0] < 3 else 2)
+            if op == "old":
+                a = (olds or objs)[ins["a"] - 1]
             if a is None or (op in ("mul", "div", "mulrule", "divrule") and b is None):
                 raise LookupError("operand missing")
             sa = scales[ins["a"] - 1]
@@ -360,6 +389,9 @@ def _run(case, hreg, hashes):
             elif op == "pow":
                 res = a ** _exponent(ins["e"])
                 ref = mp.mpf(sa) ** (mp.mpf(ins["eff"][0]) / ins["eff"][1])
+            elif op == "old":
+                res = a
+                ref = mp.mpf(float(a.base_value))
             elif op == "simplify":
                 res = a.simplify()
                 ref = mp.mpf(sa)
@@ -446,6 +478,7 @@ def _run(case, hreg, hashes):
         "alg": alg,
         "adim": adim,
         "ain": ain,
+        "xs": xs,
         "aoff": aoff,
         "regs": regs,
         "herr": herr,
